@@ -197,7 +197,7 @@ PROPERTIES = {
     "C09": {
         "rule": "rapidcheck, two subs. 'single': divide_cell on one mother (>= 60 triangles: deformed icospheres, refined solids, prisms, "
                 "bipyramids; um/unit scale; placement up to 100 sizes) with a forced axis of class {random, exactly +-x/+-y/+-z, within "
-                "1e-9 of an axis, plane through a mesh node, default longest axis}, l_min inside the band the mother's edges satisfy. 1/8 of the mothers are instead regular octahedra / icosahedra cut along a body diagonal with l_min of the order of their edges (daughters that need no collapse; the volume clause is not applied where l_max exceeds the mother's diameter). "
+                "1e-9 of an axis, plane through a mesh node, default longest axis}, l_min inside the band the mother's edges satisfy; the mother's target volume is 0.6-2.5 of its volume (stretched, relaxed, compressed) and the type's minimum volume 0-0.7 of it (half of the target may lie below the minimum volume). 1/8 of the mothers are instead regular octahedra / icosahedra cut along a body diagonal with l_min of the order of their edges (daughters that need no collapse; the volume clause is not applied where l_max exceeds the mother's diameter). "
                 "'population': cell_divider::run on 1-10 cells (epithelial / lumen / static) with none, some, most or all eligible, 1-8 "
                 "threads. Non-trivial = at least one successful division; distinct = hash of the case.",
         "min_nontrivial": 30,
